@@ -16,6 +16,7 @@ package c10
 import (
 	"bytes"
 	"context"
+	"encoding/json"
 	"errors"
 	"fmt"
 	"os"
@@ -1151,6 +1152,44 @@ func runCLI(ctx context.Context, t interface {
 	if strings.Join(protogen.SortedKeys(got), ";") != strings.Join(protogen.SortedKeys(want), ";") {
 		r.Fail(t, "dep-graph-edges", fmt.Sprintf("`buf dep graph` edges %v, import graph %v", protogen.SortedKeys(got), protogen.SortedKeys(want)), c)
 		return
+	}
+	// the same graph as JSON: every module once at top level, its deps = its direct dependencies
+	code4, js, jerr := bufcli.Run(ctx, env, "", "dep", "graph", tmp, "--format", "json")
+	if code4 != 0 {
+		r.Fail(t, "dep-graph-failed:json", fmt.Sprintf("`buf dep graph --format json` exit %d: %s", code4, jerr), c)
+		return
+	}
+	type jmod struct {
+		Name string `json:"name"`
+		Deps []jmod `json:"deps"`
+	}
+	var mods []jmod
+	if err := json.Unmarshal([]byte(js), &mods); err != nil {
+		r.Fail(t, "dep-graph-json-malformed", fmt.Sprintf("%v: %s", err, js), c)
+		return
+	}
+	gotJ := map[string]bool{}
+	var walk func(m jmod)
+	walk = func(m jmod) {
+		for _, d := range m.Deps {
+			gotJ[m.Name+" -> "+d.Name] = true
+			walk(d)
+		}
+	}
+	top := map[string]bool{}
+	for _, m := range mods {
+		top[m.Name] = true
+		walk(m)
+	}
+	if strings.Join(protogen.SortedKeys(gotJ), ";") != strings.Join(protogen.SortedKeys(want), ";") {
+		r.Fail(t, "dep-graph-edges:json", fmt.Sprintf("`buf dep graph --format json` edges %v, import graph %v", protogen.SortedKeys(gotJ), protogen.SortedKeys(want)), c)
+		return
+	}
+	for a := range g {
+		if !top[a] {
+			r.Fail(t, "dep-graph-node-missing:json", fmt.Sprintf("module %s is not a top-level entry of `buf dep graph --format json` (%v)", a, protogen.SortedKeys(top)), c)
+			return
+		}
 	}
 	if len(c.Mods) >= 3 {
 		r.NonTrivial(fmt.Sprintf("cli|%v|%s", c.Mods, c.SubDir))
